@@ -721,6 +721,21 @@ impl Property for C13 {
             }
             let before = snapshot(&pool);
             let sp = spec(&pool, &before, op);
+            // In the merged-text view a piece and the merged node that presents it share one id, so the data a
+            // character-data call will see cannot be read off the snapshot: such calls are judged for panics and
+            // atomic failure only there (C16 judges their arithmetic).
+            let chardata_op = matches!(
+                op["op"].as_str().unwrap_or(""),
+                "set_data" | "append_data" | "insert_data" | "delete_data" | "replace_data" | "split_text" | "substring" | "length" | "set_value" | "pi_set_data"
+            );
+            let sp = if merged && chardata_op { Spec::Unspecified("merged-view-character-data") } else { sp };
+            // likewise a structural call whose operand is a text piece or a merged text node: the child lists of the
+            // snapshot show merged nodes, the call works on pieces
+            let textish_operand = ["c", "r", "n", "o"].iter().any(|k| {
+                op.get(*k).map(|v| v.is_number() || v.is_array()).unwrap_or(false)
+                    && matches!(pool.nodes[pool.idx(&op[*k])], XmlNode::Text(_) | XmlNode::CData(_) | XmlNode::EntityReference(_) | XmlNode::ExpandedText(_))
+            });
+            let sp = if merged && textish_operand && !matches!(sp, Spec::Unspecified(_)) { Spec::Unspecified("merged-view-text-operand") } else { sp };
             let npool = pool.nodes.len();
             // operand identities must be read before the call: the pool grows and index mapping shifts
             let mut opk: BTreeMap<&'static str, Key> = BTreeMap::new();
